@@ -21,7 +21,7 @@ type propCfg struct {
 var volReal = []string{"weed/storage Store, DiskLocation, Volume (load, write, read, delete, CheckAndFixVolumeDataIntegrity)", "weed/storage/needle (record encode/decode, CRC)", "weed/storage/needle_map + memory/LevelDB/sorted-file needle maps", "goleveldb", "real files on a per-run directory"}
 
 var props = map[string]*propCfg{
-	"C03": {Engine: "volsim", Variants: []string{""}, Quick: 640, Thorough: 24000, Chunk: 40, QuickWall: 100, ThorWall: 1500,
+	"C03": {Engine: "volsim", Variants: []string{""}, Quick: 1000, Thorough: 24000, Chunk: 40, QuickWall: 100, ThorWall: 1500,
 		Rule: "each run = a generated history of uploads/overwrites/deletes on a real Volume followed by crash points (operation k in flight, byte offset within k's data append or within k's index append; every point for short histories, sampled for longer ones), each materialised by truncating copies of .dat/.idx and reopening through a fresh Store; a run is non-trivial if at least one crash point was explored; distinct = distinct abstract traces (sequence of op kinds and crash situations, payloads erased)",
 		Real: volReal, Stub: []string{"crash = file truncation to a write-order-respecting prefix (no reordered write-back)", "LevelDB directory state at the crash = snapshot after the last complete operation, or lost"},
 		Assume: []string{"crash states are prefixes of the append-only files as the property states", "empty-payload blobs: see known_findings.json"}, CrashIsViolation: true},
